@@ -1,39 +1,126 @@
-mod interpose;
+//! bcsim — deterministic simulation harness for letung3105/bitcask.
+//!
+//!   bcsim supervise --check Cnn --tier quick|thorough --seed N   (what ./check runs)
+//!   bcsim worker ...                                             (child of supervise)
+//!   bcsim one                                                    (scenario on stdin -> RunOut on stdout)
+//!   bcsim replay --file F
+//!   bcsim gen --check Cnn --seed N --index I [--tier T]
+//!   bcsim selftest --checks C01,C02 --runs N --seed S
 
-use bytes::Bytes;
-use bitcask::storage::{bitcask as bc, KeyValueStorage};
-use simrt::{SimConfig, Strategy};
+mod gen;
+mod interpose;
+mod netscn;
+mod runner;
+mod scan;
+mod scn;
+mod store;
+mod supervisor;
+
+use std::io::{BufRead, Read, Write};
+
+use scn::*;
+
+fn arg(args: &[String], name: &str) -> Option<String> {
+    args.iter().position(|a| a == name).and_then(|i| args.get(i + 1).cloned())
+}
+
+fn install_fatal_hook() {
+    simrt::sched::set_fatal_hook(Box::new(|info| {
+        let kind = match info.kind {
+            simrt::sched::FatalKind::Deadlock => "deadlock",
+            simrt::sched::FatalKind::Livelock => "livelock",
+            simrt::sched::FatalKind::StepCap => "step-cap",
+        };
+        let line = serde_json::json!({"t": "fatal", "kind": kind, "detail": info.detail, "step": info.step, "now_ns": info.now_ns});
+        let out = std::io::stdout();
+        let mut l = out.lock();
+        let _ = writeln!(l, "{}", line);
+        let _ = l.flush();
+    }));
+}
+
+fn silence_panics() {
+    // panics inside the system under test are observations, not noise on stderr
+    std::panic::set_hook(Box::new(|info| {
+        if std::env::var("BCSIM_PANIC_TRACE").is_ok() {
+            eprintln!("panic: {}", info);
+        }
+    }));
+}
 
 fn main() {
-    let root = format!("/dev/shm/bcsim.{}/r0", std::process::id());
-    std::fs::create_dir_all(format!("{}/s0", root)).unwrap();
-    let root2 = root.clone();
-    let cfg = SimConfig { seed: 7, strategy: Strategy::Random { per_mille: 100 }, ..Default::default() };
-    let (out, sim) = simrt::run(cfg, move || {
-        let (sim, _) = simrt::current().unwrap();
-        simrt::fsim::set_root(sim, &root2);
-        let mut conf = bc::Config::default();
-        conf.path(format!("{}/s0", root2)).concurrency(2).max_file_size(100);
-        let kv = conf.open().unwrap();
-        let h = kv.get_handle();
-        h.set(Bytes::from("k1"), Bytes::from("v1")).unwrap();
-        h.set(Bytes::from("k2"), Bytes::from(vec![7u8; 9000])).unwrap();
-        let g = h.get(Bytes::from("k1")).unwrap();
-        h.del(Bytes::from("k1")).unwrap();
-        h.verif_merge().unwrap();
-        let d = h.verif_dump();
-        drop(kv);
-        (g, d)
-    });
-    println!("get => {:?}", out.0);
-    println!("dump => active {} idx {} stats {:?}", out.1.active_fileid, out.1.index.len(), out.1.stats);
-    simrt::fsim::with_fs(&sim, |fs| {
-        for r in &fs.log {
-            println!("{:>3} t{} {:?} {} fd={} a={} b={} res={} {}", r.seq, r.tid, r.op, fs.path_name(r.path), r.fd, r.a, r.b, r.res, r.what);
+    let args: Vec<String> = std::env::args().collect();
+    let mode = args.get(1).map(|s| s.as_str()).unwrap_or("");
+    match mode {
+        "worker" => {
+            install_fatal_hook();
+            silence_panics();
+            let check = arg(&args, "--check").unwrap();
+            let tier = arg(&args, "--tier").unwrap_or_else(|| "quick".into());
+            let seed: u64 = arg(&args, "--seed").unwrap().parse().unwrap();
+            let start: u64 = arg(&args, "--start").unwrap().parse().unwrap();
+            let step: u64 = arg(&args, "--step").unwrap().parse().unwrap();
+            let end: u64 = arg(&args, "--end").unwrap().parse().unwrap();
+            let deadline: f64 = arg(&args, "--deadline").map(|s| s.parse().unwrap()).unwrap_or(1e9);
+            let t0 = std::time::Instant::now();
+            let out = std::io::stdout();
+            let mut i = start;
+            while i < end {
+                if t0.elapsed().as_secs_f64() > deadline {
+                    let mut l = out.lock();
+                    let _ = writeln!(l, "{}", serde_json::json!({"t": "deadline", "i": i}));
+                    break;
+                }
+                {
+                    let mut l = out.lock();
+                    let _ = writeln!(l, "{}", serde_json::json!({"t": "start", "i": i}));
+                    let _ = l.flush();
+                }
+                let rs = simrt::rng::run_seed(seed, &check, i);
+                let scn = gen::generate(&check, &tier, rs);
+                let r = runner::run_scenario(&scn);
+                let mut l = out.lock();
+                let _ = writeln!(l, "{}", serde_json::json!({"t": "done", "i": i, "out": r}));
+                let _ = l.flush();
+                i += step;
+            }
+            let _ = std::fs::remove_dir_all(runner::base_dir());
         }
-        println!("discipline: {:?}", fs.discipline);
-    });
-    println!("threads: {:?}", sim.thread_names());
-    println!("stats: {:?}", sim.stats());
-    let _ = std::fs::remove_dir_all(format!("/dev/shm/bcsim.{}", std::process::id()));
+        "one" => {
+            install_fatal_hook();
+            silence_panics();
+            let mut s = String::new();
+            std::io::stdin().read_to_string(&mut s).unwrap();
+            let scn: Scenario = serde_json::from_str(&s).expect("scenario json");
+            let r = runner::run_scenario(&scn);
+            println!("{}", serde_json::json!({"t": "done", "i": 0, "out": r}));
+            let _ = std::fs::remove_dir_all(runner::base_dir());
+        }
+        "gen" => {
+            let check = arg(&args, "--check").unwrap();
+            let tier = arg(&args, "--tier").unwrap_or_else(|| "quick".into());
+            let seed: u64 = arg(&args, "--seed").unwrap_or_else(|| "1".into()).parse().unwrap();
+            let index: u64 = arg(&args, "--index").unwrap_or_else(|| "0".into()).parse().unwrap();
+            let rs = simrt::rng::run_seed(seed, &check, index);
+            let scn = gen::generate(&check, &tier, rs);
+            println!("{}", serde_json::to_string_pretty(&scn).unwrap());
+        }
+        "supervise" => {
+            let code = supervisor::supervise(&args);
+            std::process::exit(code);
+        }
+        "replay" => {
+            let code = supervisor::replay(&args);
+            std::process::exit(code);
+        }
+        "selftest" => {
+            let code = supervisor::selftest(&args);
+            std::process::exit(code);
+        }
+        _ => {
+            eprintln!("usage: bcsim supervise|worker|one|replay|gen|selftest ...");
+            let _ = std::io::stdin().lock().lines().next();
+            std::process::exit(2);
+        }
+    }
 }
